@@ -33,8 +33,8 @@ ASSUMPTIONS = ['covers the fault-reachable neighbourhood of well-formed MIBs, no
 SWEEP_SET = {'quick': '6 corpus files: all prefixes (3 dialects), all single-byte replacements x 5 characters (compat dialect), all declaration-line insertions x 4 kinds, all comment/indent replacements, compile() truncations every 7th offset',
              'thorough': '9 corpus files, same fault kinds, compile() truncations every 3rd offset'}
 
-ALPHABET = ['@', '"', '{', '7', '\n']
-INSERTS = {'illegal': '@', 'forbidden': 'FALSE', 'bignum': '99999999999999999999999', 'dashid': 'trailing-', 'forbidden2': 'zzz NULL'}
+ALPHABET = ['@', '"', '{', '7', '\n', '%']
+INSERTS = {'illegal': '@', 'illegal-pct': '% 100% wrong', 'forbidden': 'FALSE', 'bignum': '99999999999999999999999', 'dashid': 'trailing-', 'forbidden2': 'zzz NULL'}
 DIALECTS = ['smiV1Relaxed', 'smiV2', 'smiV1']
 _parsers = {}
 _intact = {}
